@@ -1,20 +1,25 @@
 #!/bin/bash
-# mutest.sh <patch|-R:commit> <prop> [tier] : apply a change to /repo, run one check, undo.
-# Used only for self-validation; never leaves /repo modified.
+# mutest.sh <patch|-R:commit> <prop> [tier] : self-validation. Applies a change to a
+# scratch worktree of /repo (never to /repo itself), runs one check against it
+# via VERIF_REPO, removes the worktree.
 set -u
 cd /verif
 what="$1"; prop="$2"; tier="${3:-quick}"
-if [ -n "$(git -C /repo status --porcelain)" ]; then echo "/repo not clean"; exit 9; fi
+wt=/tmp/mut/wt.$$
+mkdir -p /tmp/mut
+git -C /repo worktree add -q --detach "$wt" HEAD || exit 9
+cleanup() { git -C /repo worktree remove --force "$wt" 2>/dev/null; }
+trap cleanup EXIT
 case "$what" in
-  -R:*) git -C /repo show "${what#-R:}" | git -C /repo apply -R || exit 9 ;;
-  *) git -C /repo apply "$what" || exit 9 ;;
+  -R:*) git -C /repo show "${what#-R:}" | git -C "$wt" apply -R || exit 9 ;;
+  *) git -C "$wt" apply "$(realpath "$what")" || exit 9 ;;
 esac
-(cd /repo && GOFLAGS=-mod=readonly go build ./... ) || { git -C /repo checkout -- .; echo "mutant does not build"; exit 8; }
-./check "$prop" "$tier" > /tmp/mutest.$$.out 2>&1; rc=$?
-git -C /repo checkout -- .
-grep -c '^VIOLATION' /tmp/mutest.$$.out | sed 's/^/violation lines: /'
-grep -m3 -A1 '^VIOLATION' /tmp/mutest.$$.out
-grep -e '^RESULT' -e '^INCONCLUSIVE' -e 'total violations' /tmp/mutest.$$.out
-rm -f /tmp/mutest.$$.out
+(cd "$wt" && GOFLAGS=-mod=readonly go build ./... ) || { echo "mutant does not build"; exit 8; }
+out=/tmp/mut/out.$$
+VERIF_REPO="$wt" VERIF_DIR_OVERRIDE= ./check "$prop" "$tier" > "$out" 2>&1; rc=$?
+grep -c '^VIOLATION' "$out" | sed 's/^/violation lines: /'
+grep -m2 -A1 '^VIOLATION' "$out"
+grep -e '^RESULT' -e '^INCONCLUSIVE' -e 'total violations' "$out"
+rm -f "$out"
 echo "rc=$rc"
 exit $rc
